@@ -23,6 +23,30 @@ namespace File
 @[simp] theorem setSw_lost (s : St) (w : Sweeper) : (setSw s w).lost = s.lost := rfl
 @[simp] theorem setSw_file (s : St) (w : Sweeper) : (setSw s w).file = s.file := rfl
 
+@[simp] theorem setThr_faulted (s : St) (i : Nat) (t : Thr) : (setThr s i t).faulted = s.faulted := rfl
+@[simp] theorem setSw_faulted (s : St) (w : Sweeper) : (setSw s w).faulted = s.faulted := rfl
+
+/-- what the thread-local dispatch can do -/
+theorem next_spec (now : Nat) : ∀ (prog : List FOp) (t : Thr),
+    (next now prog t).loaded = t.loaded ∧ (next now prog t).seen = t.seen ∧
+    inCS (next now prog t).pc = true ∧
+    ((next now prog t).pc = .trunc ∨ (next now prog t).pc = .dump → t.loaded = true) := by
+  intro prog
+  induction prog with
+  | nil => intro t; unfold next; by_cases h : t.loaded <;> simp [h, inCS]
+  | cons o rest ih =>
+    intro t
+    cases o with
+    | rmw =>
+      unfold next
+      by_cases h : t.loaded
+      · simp only [h, if_true]
+        have := ih { t with tmp := t.tmp + 1 }
+        simpa [h] using this
+      · simp [h, inCS]
+    | delete => simp [next, inCS]
+    | regen => simp [next, inCS]
+
 structure Inv (s : St) : Prop where
   r1 : ∀ i, inCS (s.thr i).pc = true → s.flock = some (.req i)
   r2 : ∀ i, s.flock = some (.req i) → inCS (s.thr i).pc = true
@@ -30,61 +54,164 @@ structure Inv (s : St) : Prop where
   w2 : s.flock = some .sweep → swInCS s.sw.pc = true
   o1 : ∀ d, s.flock ≠ some (.tick d)
   o2 : ∀ i, s.flock ≠ some (.expire i)
-  v1 : ∀ i, ((s.thr i).pc = .trunc ∨ (s.thr i).pc = .dump) → (s.thr i).seen = s.version
+  o3 : ∀ k, s.flock ≠ some (.fault k)
+  v1 : ∀ i, (s.thr i).loaded = true → inCS (s.thr i).pc = true
+  v4 : ∀ i, (s.thr i).loaded = true → (s.thr i).pc ≠ .rel → (s.thr i).seen = s.version
+  v3 : ∀ i, ((s.thr i).pc = .trunc ∨ (s.thr i).pc = .dump) → (s.thr i).loaded = true
   v2 : s.sw.pc = .unlink → s.sw.seen = s.version ∧ s.file ≠ .absent
   e1 : s.sw.err = true → s.sw.pc = .rel ∨ s.sw.pc = .crashed
-  e2 : s.sw.err = false ∧ s.sw.pc ≠ .crashed
+  e2 : s.faulted = false → s.sw.err = false ∧ s.sw.pc ≠ .crashed ∧ s.sw.fault = none
   l1 : s.lost = false
 
+macro "file_simp" : tactic =>
+  `(tactic| simp only [setThr_thr, setThr_flock, setThr_version, setThr_lost, setThr_file, setThr_sw,
+      setSw_sw, setSw_thr, setSw_flock, setSw_version, setSw_lost, setSw_file, setThr_faulted, setSw_faulted])
+
 macro "file_close" : tactic =>
-  `(tactic| (refine ⟨?_, ?_, ?_, ?_, ?_, ?_, ?_, ?_, ?_, ?_, ?_⟩ <;>
-      simp only [setThr_thr, setThr_flock, setThr_version, setThr_lost, setThr_file, setThr_sw,
-        setSw_sw, setSw_thr, setSw_flock, setSw_version, setSw_lost, setSw_file] <;>
+  `(tactic| (refine ⟨?_, ?_, ?_, ?_, ?_, ?_, ?_, ?_, ?_, ?_, ?_, ?_, ?_, ?_⟩ <;> file_simp <;>
       grind [inCS, swInCS]))
 
-theorem inv_stepReq (s : St) (i : Nat) (h : Inv s) : Inv (stepReq s i) := by
-  obtain ⟨r1, r2, w1, w2, o1, o2, v1, v2, e1, e2, l1⟩ := h
+/-- a step of request `i`, inside its critical section, that ends with the dispatch `next` and keeps the
+    lock, the sweeper and the version as they are -/
+theorem inv_next (s s1 : St) (i : Nat) (t : Thr) (h : Inv s)
+    (ef : s1.flock = some (.req i)) (et : s1.thr = s.thr) (ew : s1.sw = s.sw) (ev : s1.version = s.version)
+    (el : s1.lost = s.lost) (efa : s1.faulted = s.faulted) (hfile : s.sw.pc = .unlink → s1.file = s.file)
+    (hfl : s.flock = some (.req i) ∨ (s.flock = none ∧ ∀ j, inCS (s.thr j).pc = false))
+    (hload : t.loaded = true → t.seen = s.version) :
+    Inv (setThr s1 i (next s.now t.prog t)) := by
+  obtain ⟨r1, r2, w1, w2, o1, o2, o3, v1, v4, v3, v2, e1, e2, l1⟩ := h
+  obtain ⟨n1, n2, n3, n4⟩ := next_spec s.now t.prog t
+  generalize next s.now t.prog t = tn at *
+  refine ⟨?_, ?_, ?_, ?_, ?_, ?_, ?_, ?_, ?_, ?_, ?_, ?_, ?_, ?_⟩ <;> file_simp <;>
+    simp only [ef, et, ew, ev, el, efa] <;> grind [inCS, swInCS]
+
+theorem inv_req_acq (s : St) (i : Nat) (h : Inv s) (hpc : (s.thr i).pc = .acq) : Inv (stepReq s i) := by
   unfold stepReq
-  cases hpc : (s.thr i).pc <;> simp only [hpc]
+  simp only [hpc]
+  cases hf : s.flock with
+  | some a => simp only []; exact h
+  | none =>
+    simp only []
+    have hnone : ∀ j, inCS (s.thr j).pc = false := by
+      intro j
+      cases hc : inCS (s.thr j).pc with
+      | false => rfl
+      | true => have := h.r1 j hc; rw [hf] at this; cases this
+    have hnl : (s.thr i).loaded = true → (s.thr i).seen = s.version := by
+      intro hl
+      have := h.v1 i hl
+      rw [hpc] at this
+      simp [inCS] at this
+    exact inv_next s { s with flock := some (.req i) } i (s.thr i) h rfl rfl rfl rfl rfl rfl (fun _ => rfl)
+      (Or.inr ⟨hf, hnone⟩) hnl
+
+theorem inv_req_openr (s : St) (i : Nat) (h : Inv s) (hpc : (s.thr i).pc = .openr) : Inv (stepReq s i) := by
+  have hin : inCS (s.thr i).pc = true := by simp [hpc, inCS]
+  have hfl := h.r1 i hin
+  unfold stepReq
+  simp only [hpc]
+  split
+  · have key := inv_next s s i { s.thr i with loaded := true, tmp := 0, seen := s.version } h hfl rfl rfl rfl
+      rfl rfl (fun _ => rfl) (Or.inl hfl) (fun _ => rfl)
+    simp only [hpc] at key
+    exact key
+  · obtain ⟨r1, r2, w1, w2, o1, o2, o3, v1, v4, v3, v2, e1, e2, l1⟩ := h
+    file_close
+
+theorem inv_req_load (s : St) (i : Nat) (h : Inv s) (hpc : (s.thr i).pc = .load) : Inv (stepReq s i) := by
+  have hin : inCS (s.thr i).pc = true := by simp [hpc, inCS]
+  have hfl := h.r1 i hin
+  unfold stepReq
+  simp only [hpc]
+  have key := inv_next s s i { s.thr i with loaded := true, tmp := loadVal s, seen := s.version }
+    h hfl rfl rfl rfl rfl rfl (fun _ => rfl) (Or.inl hfl) (fun _ => rfl)
+  simp only [hpc] at key
+  exact key
+
+theorem inv_req_del (s : St) (i : Nat) (h : Inv s) (hpc : (s.thr i).pc = .del) : Inv (stepReq s i) := by
+  have hin : inCS (s.thr i).pc = true := by simp [hpc, inCS]
+  have hfl := h.r1 i hin
+  unfold stepReq
+  simp only [hpc]
+  have hu : s.sw.pc = .unlink → ({ s with file := .absent } : St).file = s.file := by
+    intro hu
+    have := h.w1 (by simp [hu, swInCS])
+    rw [hfl] at this
+    cases this
+  have key := inv_next s { s with file := .absent } i { s.thr i with loaded := false, tmp := 0 } h hfl rfl rfl rfl
+    rfl rfl hu (Or.inl hfl) (fun hl => by cases hl)
+  simp only [hpc] at key
+  exact key
+
+theorem inv_stepReq (s : St) (i : Nat) (h : Inv s) : Inv (stepReq s i) := by
+  cases hpc : (s.thr i).pc
+  case acq => exact inv_req_acq s i h hpc
+  case openr => exact inv_req_openr s i h hpc
+  case load => exact inv_req_load s i h hpc
+  case del => exact inv_req_del s i h hpc
+  all_goals
+    obtain ⟨r1, r2, w1, w2, o1, o2, o3, v1, v4, v3, v2, e1, e2, l1⟩ := h
+    unfold stepReq
+    simp only [hpc]
   case init => file_close
   case gex => file_close
-  case acq => split <;> first | file_close | exact ⟨r1, r2, w1, w2, o1, o2, v1, v2, e1, e2, l1⟩
-  case openr => split <;> file_close
-  case load => file_close
+  case rdel => file_close
+  case rrel => file_close
   case trunc => file_close
   case dump => file_close
   case rel => file_close
-  all_goals exact ⟨r1, r2, w1, w2, o1, o2, v1, v2, e1, e2, l1⟩
+  all_goals exact ⟨r1, r2, w1, w2, o1, o2, o3, v1, v4, v3, v2, e1, e2, l1⟩
 
 theorem inv_stepSweep (s : St) (h : Inv s) : Inv (stepSweep s) := by
-  obtain ⟨r1, r2, w1, w2, o1, o2, v1, v2, e1, e2, l1⟩ := h
+  obtain ⟨r1, r2, w1, w2, o1, o2, o3, v1, v4, v3, v2, e1, e2, l1⟩ := h
   unfold stepSweep
   cases hpc : s.sw.pc <;> simp only [hpc]
   case list => split <;> file_close
-  case acq => split <;> first | file_close | exact ⟨r1, r2, w1, w2, o1, o2, v1, v2, e1, e2, l1⟩
-  case openr => split <;> file_close
-  case load => split <;> (try split) <;> file_close
-  case unlink => split <;> file_close
+  case acq => split <;> first | file_close | exact ⟨r1, r2, w1, w2, o1, o2, o3, v1, v4, v3, v2, e1, e2, l1⟩
+  case openr => split <;> (try split) <;> file_close
+  case load => split <;> (try split) <;> (try split) <;> (try split) <;> file_close
+  case unlink => split <;> (try split) <;> file_close
   case rel => file_close
-  case crashed => exact ⟨r1, r2, w1, w2, o1, o2, v1, v2, e1, e2, l1⟩
+  case crashed => exact ⟨r1, r2, w1, w2, o1, o2, o3, v1, v4, v3, v2, e1, e2, l1⟩
 
 theorem inv_step (s : St) (a : Actor) (h : Inv s) : Inv (step s a) := by
   cases a with
   | req i => exact inv_stepReq s i h
   | sweep => exact inv_stepSweep s h
   | tick d =>
-    obtain ⟨r1, r2, w1, w2, o1, o2, v1, v2, e1, e2, l1⟩ := h
-    exact ⟨r1, r2, w1, w2, o1, o2, v1, v2, e1, e2, l1⟩
+    obtain ⟨r1, r2, w1, w2, o1, o2, o3, v1, v4, v3, v2, e1, e2, l1⟩ := h
+    exact ⟨r1, r2, w1, w2, o1, o2, o3, v1, v4, v3, v2, e1, e2, l1⟩
   | expire i =>
-    obtain ⟨r1, r2, w1, w2, o1, o2, v1, v2, e1, e2, l1⟩ := h
+    obtain ⟨r1, r2, w1, w2, o1, o2, o3, v1, v4, v3, v2, e1, e2, l1⟩ := h
     unfold step
     simp only []
     split
     · file_close
-    · exact ⟨r1, r2, w1, w2, o1, o2, v1, v2, e1, e2, l1⟩
+    · exact ⟨r1, r2, w1, w2, o1, o2, o3, v1, v4, v3, v2, e1, e2, l1⟩
+  | fault k =>
+    obtain ⟨r1, r2, w1, w2, o1, o2, o3, v1, v4, v3, v2, e1, e2, l1⟩ := h
+    exact ⟨r1, r2, w1, w2, o1, o2, o3, v1, v4, v3, v2, e1, (fun hf => by cases hf), l1⟩
 
-theorem inv_init (f : FileC) (to : Nat → Bool) : Inv (init f to) := by
-  refine ⟨?_, ?_, ?_, ?_, ?_, ?_, ?_, ?_, ?_, ?_, ?_⟩ <;> simp [init, inCS, swInCS]
+theorem inv_init (f : FileC) (to : Nat → Bool) (progs : List (List FOp)) : Inv (init f to progs) := by
+  have hthr : ∀ i, ((init f to progs).thr i).pc = .init ∧ ((init f to progs).thr i).loaded = false := by
+    intro i
+    simp only [init]
+    split <;> exact ⟨rfl, rfl⟩
+  refine ⟨?_, ?_, ?_, ?_, ?_, ?_, ?_, ?_, ?_, ?_, ?_, ?_, ?_, ?_⟩
+  · intro i hi; rw [(hthr i).1] at hi; simp [inCS] at hi
+  · intro i hi; simp [init] at hi
+  · intro hi; simp [init, swInCS] at hi
+  · intro hi; simp [init] at hi
+  · intro d; simp [init]
+  · intro i; simp [init]
+  · intro k; simp [init]
+  · intro i hi; rw [(hthr i).2] at hi; cases hi
+  · intro i hi; rw [(hthr i).2] at hi; cases hi
+  · intro i hi; rw [(hthr i).1] at hi; simp at hi
+  · intro hi; simp [init] at hi
+  · intro hi; simp [init] at hi
+  · intro _; simp [init]
+  · simp [init]
 
 theorem inv_run (s : St) (sched : List Actor) (h : Inv s) : Inv (run s sched) := by
   induction sched generalizing s with
@@ -97,17 +224,19 @@ end File
     any schedule and any placement of lock-timeout expiries, from every initial file state:
     at most one request is between `acquire_lock` and `release_lock`, and none while the sweep is
     between its acquire and its release; no dump is based on an overtaken load and the sweep never
-    unlinks a file that was written after its locked check; the sweep never raises; the lock is
-    free whenever nobody is inside. -/
-theorem C13_file_mutex (f : FileC) (to : Nat → Bool) (sched : List Actor) :
-    let s := run (init f to) sched
+    unlinks a file that was written after its locked check; the sweep never raises unless a fault
+    was injected; the lock is free whenever nobody is inside — in particular after a sweep that died of an
+    injected fault (`crashed` is outside the sweep's locked region), and whatever the handler scripts
+    (delete, regenerate inside the lock) are. -/
+theorem C13_file_mutex (f : FileC) (to : Nat → Bool) (progs : List (List FOp)) (sched : List Actor) :
+    let s := run (init f to progs) sched
     (∀ i j, inCS (s.thr i).pc = true → inCS (s.thr j).pc = true → i = j) ∧
     (swInCS s.sw.pc = true → ∀ i, inCS (s.thr i).pc = false) ∧
-    s.lost = false ∧ s.sw.pc ≠ .crashed ∧
+    s.lost = false ∧ (s.faulted = false → s.sw.pc ≠ .crashed) ∧
     ((∀ i, inCS (s.thr i).pc = false) → swInCS s.sw.pc = false → s.flock = none) := by
   intro s
-  have h : File.Inv s := File.inv_run _ sched (File.inv_init f to)
-  refine ⟨?_, ?_, h.l1, h.e2.2, ?_⟩
+  have h : File.Inv s := File.inv_run _ sched (File.inv_init f to progs)
+  refine ⟨?_, ?_, h.l1, fun hf => (h.e2 hf).2.1, ?_⟩
   · intro i j hi hj
     have a := h.r1 i hi
     have b := h.r1 j hj
@@ -132,19 +261,21 @@ theorem C13_file_mutex (f : FileC) (to : Nat → Bool) (sched : List Actor) :
       | sweep => have := h.w2 hf; rw [hsw] at this; cases this
       | tick d => exact absurd hf (h.o1 d)
       | expire i => exact absurd hf (h.o2 i)
+      | fault k => exact absurd hf (h.o3 k)
 
 /-- **C13_file_ops_locked.**  Every destructive or mutating file operation (truncate, dump, unlink)
     is executed by the actor that holds the session's file lock. -/
-theorem C13_file_ops_locked (f : FileC) (to : Nat → Bool) (sched : List Actor) :
-    let s := run (init f to) sched
-    (∀ i, ((s.thr i).pc = .trunc ∨ (s.thr i).pc = .dump) → s.flock = some (.req i)) ∧
+theorem C13_file_ops_locked (f : FileC) (to : Nat → Bool) (progs : List (List FOp)) (sched : List Actor) :
+    let s := run (init f to progs) sched
+    (∀ i, ((s.thr i).pc = .trunc ∨ (s.thr i).pc = .dump ∨ (s.thr i).pc = .del ∨ (s.thr i).pc = .rdel) →
+      s.flock = some (.req i)) ∧
     (s.sw.pc = .unlink → s.flock = some .sweep) := by
   intro s
-  have h : File.Inv s := File.inv_run _ sched (File.inv_init f to)
+  have h : File.Inv s := File.inv_run _ sched (File.inv_init f to progs)
   constructor
   · intro i hp
     apply h.r1 i
-    rcases hp with hp | hp <;> simp [hp, inCS]
+    rcases hp with hp | hp | hp | hp <;> simp [hp, inCS]
   · intro hp
     apply h.w1
     simp [hp, swInCS]
@@ -156,5 +287,15 @@ example :
       [.tick 3, .req 0, .req 1, .sweep, .sweep, .req 0, .expire 1, .sweep, .sweep, .sweep, .sweep, .req 0, .req 0]
     (s.thr 1).pc = .failed ∧ s.file = .absent ∧ s.sw.pc = .list ∧ (s.thr 0).pc = .trunc ∧
     s.flock = some (.req 0) := by decide
+
+/-- non-vacuity of the fault clause: the sweep holds the lock of an expired session, its `os.unlink` fails,
+    the exception leaves `clean_up` through the `finally`: the sweep is dead and the lock is free; a
+    request that deletes and goes on working keeps the lock until its save -/
+example :
+    let s := run (init (.data 5 0) (fun _ => false) [[.rmw, .delete, .rmw], [.rmw]])
+      [.tick 3, .req 0, .req 1, .fault 2, .sweep, .sweep, .sweep, .sweep, .sweep, .sweep,
+       .req 0, .req 0, .req 0, .req 0, .req 1]
+    s.sw.pc = .crashed ∧ s.faulted = true ∧ (s.thr 0).pc = .openr ∧ s.file = .absent ∧
+    s.flock = some (.req 0) ∧ enabled s (.req 1) = false := by decide
 
 end CpProofs.C13
